@@ -19,7 +19,7 @@ TSlot == /\ l <= Len(Traces[tid].events) /\ l' = l + 1 /\ UNCHANGED tid
          /\ LET fk == pattern[k + 1] vis == VisibleT(fk) IN
             /\ Ev.outcome \in (IF vis THEN {"Skipped", "Rejected", "Ok"} ELSE {"Ok"})
             /\ since' = IF vis THEN 0 ELSE since + 1
-            /\ (since' >= Recover => Ev.close)
+            /\ ((since' >= Recover /\ pattern[1] = "ok") => Ev.close)
             /\ status' = IF Ev.outcome = "Rejected" THEN "rejected" ELSE "running"
          /\ k' = k + 1 /\ UNCHANGED pattern
 TraceSpec == TraceInit /\ [][TSlot]_tvars
